@@ -1,7 +1,7 @@
 #!/bin/bash
 # usage: try_mutation.sh <property-id> <patch.diff> [tier] [extra symgo args]
 # Applies a seeded change to /repo, runs the property's check, and undoes the change straight afterwards.
-id="$1"; patch="$2"; tier="${3:-quick}"; shift 3 2>/dev/null
+id="$1"; patch="$(readlink -f "$2")"; tier="${3:-quick}"; shift 3 2>/dev/null
 cd /verif || exit 2
 if [ -n "$(git -C /repo status --porcelain)" ]; then echo "refusing: /repo is dirty"; exit 2; fi
 git -C /repo apply "$patch" || { echo "patch does not apply"; exit 2; }
